@@ -274,12 +274,27 @@ Case genPath() {
     if (G::coin()) std::reverse(p.begin(), p.end());
     ST.count("comb_path_60_to_360_points");
   }
+  bool stairs = !comb && G::chance(3);
+  if (stairs) {
+    // exact coincidences: vertices on a horizontal / vertical / diagonal base line with integer bumps of height 0..3 and
+    // an integer epsilon 0..3, so that distances from a chord are exactly 0 or exactly epsilon
+    p.clear();
+    int n = (int)G::range(3, 9), dirk = (int)G::range(0, 2);
+    int64_t ox = G::sym(M), oy = G::sym(M), step = G::range(2, 12);
+    for (int k = 0; k < n; ++k) {
+      int64_t u = step * k, w = G::chance(55) ? 0 : G::range(-3, 3);
+      p.push_back(dirk == 0 ? Point64(ox + u, oy + w) : dirk == 1 ? Point64(ox + w, oy + u) : Point64(ox + u + w, oy + u - w));
+    }
+    if (G::coin()) p.emplace_back(ox - G::range(1, 20), oy + G::range(5, 40));   // a corner that closes the shape
+    ST.count("stairs_exact_distances");
+  }
   c.p["path"] = {p};
   c.i["open"] = G::range(0, 1);
   double feat = (double)std::max<int64_t>(M, 1);
   int ek = (int)G::range(0, 3);
   c.d["eps"] = ek == 0 ? 0.0 : ek == 1 ? G::real(0, 2) : ek == 2 ? G::real(0, feat) : feat * 1000;
   if (comb) { c.d["eps"] = G::real(0.5, 3.0); c.i["open"] = G::chance(80); }
+  if (stairs) c.d["eps"] = (double)G::range(0, 3);
   c.d["thr"] = G::chance(30) ? 0.0 : G::real(0, 4) * G::real(0, feat);
   c.i["dx"] = G::sym(int64_t(1) << 40); c.i["dy"] = G::sym(int64_t(1) << 40);
   c.d["rx"] = G::chance(15) ? G::real(-5, 0) : G::real(0.1, 5000);
